@@ -116,4 +116,38 @@ theorem truncated_tail_ignored (o : Opts) (kerr : Bool) (A : List (Int × Int)) 
   revert h
   cases walk o _ (items ++ [Item.stop none]) <;> cases walk o _ items <;> simp
 
+/-- The returned next offset never goes below the requested offset (it only ever advances), for every input. -/
+theorem next_offset_monotone (o : Opts) (kerr : Bool) (A : List (Int × Int)) (items : List Item)
+    (recs : List Rec) (next : Int) (err : Option Err) (h : process o kerr A items = .done recs next err) : o.offset ≤ next := by
+  unfold process at h
+  simp only at h
+  split at h
+  · simp at h
+  · rename_i s hw
+    simp at h
+    have := walk_off_le o _ _ _ hw
+    simp only at this
+    omega
+
+/-- the same on bytes -/
+theorem next_offset_monotone_bytes (env : Env) (o : Opts) (kerr : Bool) (A : List (Int × Int)) (inp : Bytes)
+    (recs : List Rec) (next : Int) (err : Option Err) (h : processBytes env o kerr A inp = .done recs next err) : o.offset ≤ next :=
+  next_offset_monotone o kerr A _ recs next err h
+
+/-- non-vacuity: an unknown magic byte at offset 41 moves the next offset from 7 to 42 -/
+example : process ⟨false, false, 7⟩ false [] [.badMagic 41] = .done [] 42 (some .unknownMagic) := by decide
+
+/-! ## Stated, evaluated on every run, NOT proved
+
+`records_eq_reference`: for a well-formed log `L` (offsets strictly increasing across records and batches, base
+offsets ≥ 0, every batch complete, control batches transactional, the aborted list free of duplicates and such
+that two aborted transactions of one producer below an ABORT marker are separated by an ABORT marker, no listed
+transaction ending below the requested offset) and `items` its decoding:
+  `process o false A items = .done recs next none → recs.map obs = Spec.C06.refRecords ⟨o.offset, o.keepControl, o.readCommitted, A⟩ L`.
+`next_never_passes_unreturned`: under the same hypotheses every record of `Spec.C06.refRecords … L (full := true)`
+is in `recs` or has `offset ≥ next`.
+Both are the executable predicate `Spec.C06.holds`, which the driver evaluates on the implementation's output for
+every generated log (ground truth = what the generator wrote); the points the hypotheses exclude (inconsistent
+aborted lists, reordered frames, …) are run in the malformed stream and compared with the model only. -/
+
 end Props.C06
